@@ -135,6 +135,29 @@ pub fn run(prop: &str, path: &str) -> i32 {
                 }
             }
         }
+        "cli_fen_bytes" => {
+            use std::os::unix::ffi::OsStringExt;
+            let hex = case.get("hex").and_then(|f| f.as_str()).unwrap_or("");
+            let mut arg = b"--fen=".to_vec();
+            for i in (0..hex.len() / 2 * 2).step_by(2) {
+                if let Ok(b) = u8::from_str_radix(&hex[i..i + 2], 16) {
+                    arg.push(b);
+                }
+            }
+            let args: Vec<std::ffi::OsString> = vec![std::ffi::OsString::from_vec(arg), "-T".into(), "-d".into(), "1".into()];
+            match bb::build_plain().and_then(|bin| bb::run_cli(&bin, &args, 20_000)) {
+                Ok(o) => {
+                    println!("exit status {:?}\nstdout: {}\nstderr: {}", o.status, o.stdout.trim(), o.stderr.trim());
+                    if o.status != Some(0) || o.stderr.contains("panicked") || o.stdout.trim().is_empty() {
+                        acc.violation("C15|cli-bytes|replay".into(), format!("walleye --fen=<bytes {}> -T -d 1: exit status {:?}", hex, o.status), case.clone());
+                    }
+                }
+                Err(e) => {
+                    println!("INCONCLUSIVE {}", e);
+                    return 2;
+                }
+            }
+        }
         "time_slice" => {
             let g = |k: &str| case.get(k).and_then(|x| x.as_str()).and_then(|s| s.parse::<i128>().ok()).unwrap_or(0);
             let mtg = case.get("movestogo").and_then(|x| x.as_u64()).map(|x| x as u32);
